@@ -500,7 +500,15 @@ async def sim_run_test_task(self, node):
     withheld = cls in CTX.case.get("plan", {}).get("withhold", []) or bool(withhold_re and re.search(r"(^|\.)" + re.escape(withhold_re) + r"(\.|$)", cls))
     placeholder = any(r.get("status") == "UNKNOWN" for r in node.results)
     exec_id = len([e for e in CTX.events if e["k"] == "exec_start"])
+    # the connection the real run_test_task hands to the spawner of a remote worker
+    session_worker = None
+    if params.get("nets_spawner") == "remote":
+        try:
+            session_worker = CTX.by_session.get(getattr(worker.get_session(), "address", None), "unknown")
+        except Exception as error:
+            session_worker = f"error {type(error).__name__}"
     CTX.emit("exec_start", id=exec_id, w=worker_id, task=current_worker(), name=name, cls=cls, uid=uid, prefix=node.prefix,
+             session_w=session_worker,
              req=requirements, sets=[{"obj": e["obj"], "state": e["set"], "kind": e["kind"], "unset_mode": e["unset_mode"]}
                                      for e in view if e["set"]],
              nets=params.get("nets"), nets_host=params.get("nets_host"), nets_gateway=params.get("nets_gateway"),
